@@ -120,11 +120,15 @@ mod verif_c17_async {
         let want;
         if is_read {
             let mut rb = ReadBuf::new(&mut storage);
+            // the caller may keep one ReadBuf across polls: some bytes are already filled in
+            let pre: usize = kani::any();
+            kani::assume(pre <= 2);
+            rb.put_slice(&[5u8; 2][..pre]);
             let r = Pin::new(&mut w).poll_read(&mut cx, &mut rb);
             let l = unsafe { LASTA };
             match r {
                 Poll::Pending => assert!(l.0 == 0),
-                Poll::Ready(Ok(())) => assert!(l.0 == 1 && rb.filled().len() == l.1),
+                Poll::Ready(Ok(())) => assert!(l.0 == 1 && rb.filled().len() == pre + l.1),
                 Poll::Ready(Err(_)) => assert!(l.0 == 2),
             }
             want = if l.0 == 1 { p0.wrapping_add(l.1 as u64) } else { p0 };
